@@ -1163,3 +1163,29 @@ def c14_11(ctx: Ctx) -> RuleResult:
         i.rule = "C14.11"
     r.rule, r.title, r.floor = "C14.11", "back-transforming a result without some family of constraint differences (failing evaluation) raises nothing", 3
     return r
+
+
+@rule(P)
+def c14_12(ctx: Ctx) -> RuleResult:
+    """Shared with C03.1: failure detection reads objective column 0 only, so a NaN anywhere in a
+    realization's objectives or constraints has to be propagated to the whole row first."""
+    from .c03 import c03_1
+
+    r = c03_1(ctx)
+    for i in r.instances:
+        i.rule = "C14.12"
+    r.rule, r.title = "C14.12", "too-few-realizations is decided on every failure: a NaN in any objective or constraint marks the realization as failed"
+    return r
+
+
+@rule(P)
+def c14_13(ctx: Ctx) -> RuleResult:
+    """Shared with C07.5: the ensemble-level function cache (consumed under an exact point test, stored whenever
+    the functions-only path ran, cleared before a combined evaluation)."""
+    from .c07 import c07_5
+
+    r = c07_5(ctx)
+    for i in r.instances:
+        i.rule = "C14.13"
+    r.rule, r.title = "C14.13", "function evaluations stay within the budget: a function result already computed for the current point is kept (also after tolerated failures) and never evaluated again"
+    return r
